@@ -204,3 +204,50 @@ def walk_smf(image):
         tracks.append(events)
         pos = end
     return ftype, ntracks, division, tracks
+
+
+# ------------------------------------------------------------------ independent SMF writer
+
+def enc_vlq(n, pad=0):
+    """Variable-length quantity; pad > 0 prepends that many 0x80 bytes (legal, non-minimal)."""
+    out = [n & 0x7F]
+    n >>= 7
+    while n:
+        out.append((n & 0x7F) | 0x80)
+        n >>= 7
+    out.extend([0x80] * pad)
+    return bytes(reversed(out))
+
+
+def write_smf(ftype, division, tracks, header_extra=b'', declared_tracks=None):
+    """Build an SMF image from event lists. An event is (delta, kind, ...):
+      ('midi', status, data_bytes, use_running_status)   ('meta', type, payload, vlq_pad)
+      ('sysex', 0xF0|0xF7, payload, vlq_pad)
+    with delta = (ticks, vlq_pad). Written from the SMF specification, independent of mido."""
+    out = bytearray(b'MThd')
+    out += (6 + len(header_extra)).to_bytes(4, 'big')
+    n = len(tracks) if declared_tracks is None else declared_tracks
+    out += ftype.to_bytes(2, 'big') + n.to_bytes(2, 'big') + division.to_bytes(2, 'big') + header_extra
+    for tr in tracks:
+        body = bytearray()
+        running = None
+        for ev in tr:
+            (ticks, dpad), kind = ev[0], ev[1]
+            body += enc_vlq(ticks, dpad)
+            if kind == 'midi':
+                _, _, status, data, use_rs = ev
+                if use_rs and running == status and status < 0xF0:
+                    body += bytes(data)
+                else:
+                    body += bytes([status]) + bytes(data)
+                running = status if status < 0xF0 else None
+            elif kind == 'meta':
+                _, _, mtype, payload, pad = ev
+                body += bytes([0xFF, mtype]) + enc_vlq(len(payload), pad) + bytes(payload)
+                running = None
+            else:
+                _, _, st, payload, pad = ev
+                body += bytes([st]) + enc_vlq(len(payload), pad) + bytes(payload)
+                running = None
+        out += b'MTrk' + len(body).to_bytes(4, 'big') + body
+    return bytes(out)
